@@ -8,7 +8,7 @@ import re
 from facts import AnchorMissing, callee, lit_value, nodes, pat_alternatives, pat_head, short, unblock, walk
 from shared import arm_rows, the_match
 from c11_util import (hash_iteration_sites, Formatter, Interp, LexError, Newtype, NotEvaluable, Placeholder, STD_ESCAPERS, Scopes, build_tokenizer,
-                      check_quoting_chain, fmt_calls, is_str_ty, keywords_table, render_placeholder, reserved_words,
+                      check_quoting_chain, check_quoting_semantic, fmt_calls, is_str_ty, keywords_table, render_placeholder, reserved_words,
                       std_escape_forms, strip_ty)
 
 TITLE = ("C11: every escape form the value printers emit (std escapers, pp_char, blob hex template) is decoded by the "
@@ -525,10 +525,17 @@ def run(chk, facts, tier, only=None):
                        ok_detail="in KEYWORDS")
         probs, keys = check_quoting_chain(c)
         chk.analysed(*keys)
-        for pr in probs:
-            chk.bad("quoting-chain", f"anchor moved: {pr}")
-        if not probs:
-            chk.ok("quoting-chain", "ident_string quotes iff needs_quote = !is_valid_as_id || is_keyword; is_keyword = KEYWORDS.contains")
+        sem, sem_detail = check_quoting_semantic(c, model, words)
+        chk.analysed(c.fn(r"pretty::candid::ident_string$")["key"])
+        if sem == "bad":
+            chk.bad("quoting-chain", sem_detail)
+        elif sem == "ok":
+            chk.ok("quoting-chain", sem_detail + ("" if not probs else f" (shape differs from the reference: {probs})"))
+        else:
+            for pr in probs:
+                chk.bad("quoting-chain", f"anchor moved: {pr} (and ident_string is not evaluable: {sem_detail})")
+            if not probs:
+                chk.ok("quoting-chain", "ident_string quotes iff needs_quote = !is_valid_as_id || is_keyword; is_keyword = KEYWORDS.contains")
         # is_valid_as_id accepts only strings the lexer reads as one Id (or reserved-word) token: bounded enumeration
         h = c.fn(r"pretty::candid::is_valid_as_id$")
         chk.analysed(h["key"])
